@@ -136,6 +136,29 @@ static void family_lin(std::vector<hm::Scenario>& out, unsigned oracles) {
             }
         }
     }
+    // a reader of one key races a structural writer on another key of the same or the neighbouring node (split, node removal,
+    // interior insert / split / collapse, layer root replacement): the reader has to find its key wherever it moved
+    {
+        struct RW { const char* shape; const char* reader_key; OpKind wk; const char* writer_key; };
+        const std::vector<RW> rws = {
+                {"B15", "in", PUT, "new"}, {"B15", "edge", PUT, "new"}, {"B15", "in2", PUT, "new2"}, {"B15", "first", PUT, "new2"},
+                {"I2_8_15", "in2", PUT, "new"}, {"I2_8_15", "edge", PUT, "new"}, {"I2_8_15", "edge", PUT, "new2"}, {"I2_8_15", "in", PUT, "new"},
+                {"I3_8_1_8", "in", REMOVE, "only"}, {"I3_8_1_8", "in2", REMOVE, "only"}, {"I3_8_1_8", "edge", REMOVE, "only"},
+                {"I2_1_8", "in2", REMOVE, "only"}, {"I2_1_8", "edge", REMOVE, "only"}, {"I2_8_1", "in", REMOVE, "only"},
+                {"L1full", "inL", PUT, "newL"}, {"L1full", "inL2", PUT, "newL"}, {"L1full", "inL2", PUT, "newL2"}, {"L1full", "in", PUT, "newL"},
+                {"L1I2_1_8", "inL", REMOVE, "only"}, {"L1I2_1_8", "inL2", REMOVE, "only"}, {"L1I2_1_8", "in", REMOVE, "only"},
+                {"L1one", "in", REMOVE, "only"}, {"L1_3", "inL", REMOVE, "inL2"}, {"L2", "inLL", REMOVE, "inLL2"}, {"L2", "inL", REMOVE, "inLL"},
+                {"IFULL", "in2", PUT, "new"}, {"IFULL", "edge", PUT, "new"}, {"IFULL", "in", PUT, "new"}, {"IFULL", "in", PUT, "new2"},
+        };
+        for (auto& rw : rws) {
+            const ykc::Shape* sh = ykc::find_shape(shapes, rw.shape);
+            if (sh == nullptr || sh->pal.count(rw.reader_key) == 0 || sh->pal.count(rw.writer_key) == 0) continue;
+            add(out, "lin", *sh, {{mk(GET, sh->pal.at(rw.reader_key))}, {mk(rw.wk, sh->pal.at(rw.writer_key), 2)}}, oracles, true, 2, 3);
+        }
+        const ykc::Shape* ifull = ykc::find_shape(shapes, "IFULL");
+        add(out, "lin", *ifull, {{mk(PUT, ifull->pal.at("new"), 1)}, {mk(PUT, ifull->pal.at("new2"), 2)}}, oracles, true, 2, 2);
+        add(out, "lin", *ifull, {{mk(PUT, ifull->pal.at("new"), 1)}, {mk(REMOVE, ifull->pal.at("in"))}}, oracles, true, 2, 2);
+    }
     // slot reuse (ABA): a reader of k races a writer that removes k and inserts another key into the freed slot,
     // or removes and re-inserts k itself
     for (auto& sh : shapes) {
@@ -194,6 +217,15 @@ static void family_scanc(std::vector<hm::Scenario>& out, unsigned oracles, bool 
     auto shapes = ykc::all_shapes();
     const std::vector<std::string> use = {"B3", "B15", "I2_8_8", "I2_1_8", "I3_8_1_8", "I2_8_15", "L1one", "L1_3", "L1full", "L1I2_1_8", "L2", "EMPTYROOT"};
     const std::set<std::string> quick_shapes = {"B3", "B15", "I3_8_1_8", "L1one", "L1full", "L1I2_1_8", "I2_8_15"};
+    {
+        // interior split cascade with a new root under a scan
+        ykc::Shape ifull = ykc::shape_ifull();
+        Op full = mkscan("", scan_endpoint::INF, "", scan_endpoint::INF, 0, false, with_nv);
+        Op tail = mkscan(ifull.pal.at("in2"), scan_endpoint::INCLUSIVE, "", scan_endpoint::INF, 0, false, with_nv);
+        add(out, fam, ifull, {{tail}, {mk(with_nv ? UPUT : PUT, ifull.pal.at("new"), 2)}}, oracles, true, 2, 2);
+        add(out, fam, ifull, {{full}, {mk(with_nv ? UPUT : PUT, ifull.pal.at("new"), 2)}}, oracles, false, 2, 2);
+        add(out, fam, ifull, {{tail}, {mk(with_nv ? UPUT : PUT, ifull.pal.at("new2"), 2)}}, oracles, false, 2, 2);
+    }
     for (auto& sn : use) {
         const ykc::Shape* sh = ykc::find_shape(shapes, sn);
         auto init = initial_keys(*sh);
